@@ -203,6 +203,9 @@ pub struct Obs {
     pub ms_cw20: u128,
     pub native: Vec<(usize, u128)>,
     pub cw20: Vec<(usize, u128)>,
+    /// ids whose single `Proposal{id}` answer differs from their `ListProposals` entry; 0 = the
+    /// reverse listing differs from the forward one
+    pub view_bad: Vec<u64>,
 }
 #[derive(Clone, Debug, Default)]
 pub struct GEnv {
@@ -211,6 +214,9 @@ pub struct GEnv {
     pub at: Vec<(usize, u64, Option<u64>)>,
     pub block_start: Vec<(usize, u64)>,
     pub changed: bool,
+    /// per proposal id: ListMembers as it was when the proposal's creation block began (recorded by
+    /// the harness, independent of the group's at-height queries)
+    pub snaps: Vec<(u64, Vec<(usize, u64)>)>,
 }
 #[derive(Clone, Debug)]
 pub enum EMsg {
@@ -241,6 +247,7 @@ pub struct World {
     pub block_start: Vec<(usize, u64)>,
     pub changed: bool,
     pub starts: Vec<(u64, u64)>,
+    pub snaps: Vec<(u64, Vec<(usize, u64)>)>,
 }
 
 fn conv_exp(e: &Expiration) -> Exp {
@@ -325,7 +332,7 @@ impl World {
         let pool = Pool::new(users);
         World {
             app, pool, token, target, group: None, gadmin, ms: None, flex: false, creator, height: h, time: t,
-            block_start: vec![], changed: false, starts: vec![],
+            block_start: vec![], changed: false, starts: vec![], snaps: vec![],
         }
     }
     fn arg(&self, a: &Arg) -> String {
@@ -545,11 +552,20 @@ impl World {
         let q = self.app.wrap();
         let mut o = Obs::default();
         let mut start: Option<u64> = None;
+        let mut raw: Vec<ProposalResponse> = vec![];
+        let mut listing_aborted = false;
         for _ in 0..100 {
-            let r: ProposalListResponse = if self.flex {
-                q.query_wasm_smart(&ms, &cw3_flex_multisig::msg::QueryMsg::ListProposals { start_after: start, limit: Some(30) }).unwrap_or(ProposalListResponse { proposals: vec![] })
+            let rr: StdResult<ProposalListResponse> = if self.flex {
+                q.query_wasm_smart(&ms, &cw3_flex_multisig::msg::QueryMsg::ListProposals { start_after: start, limit: Some(30) })
             } else {
-                q.query_wasm_smart(&ms, &cw3_fixed_multisig::msg::QueryMsg::ListProposals { start_after: start, limit: Some(30) }).unwrap_or(ProposalListResponse { proposals: vec![] })
+                q.query_wasm_smart(&ms, &cw3_fixed_multisig::msg::QueryMsg::ListProposals { start_after: start, limit: Some(30) })
+            };
+            let r = match rr {
+                Ok(r) => r,
+                Err(_) => {
+                    listing_aborted = true;
+                    ProposalListResponse { proposals: vec![] }
+                }
             };
             if r.proposals.is_empty() {
                 break;
@@ -557,6 +573,49 @@ impl World {
             start = r.proposals.last().map(|p| p.id);
             for p in r.proposals {
                 o.props.push(self.conv_prop(&p));
+                raw.push(p);
+            }
+        }
+        // every view of a proposal must be the same record: single query and reverse listing
+        for p in &raw {
+            let r: StdResult<ProposalResponse> = if self.flex {
+                q.query_wasm_smart(&ms, &cw3_flex_multisig::msg::QueryMsg::Proposal { proposal_id: p.id })
+            } else {
+                q.query_wasm_smart(&ms, &cw3_fixed_multisig::msg::QueryMsg::Proposal { proposal_id: p.id })
+            };
+            if let Ok(sp) = r {
+                if &sp != p {
+                    o.view_bad.push(p.id);
+                }
+            }
+        }
+        {
+            let mut rev: Vec<ProposalResponse> = vec![];
+            let mut before: Option<u64> = None;
+            let mut aborted = false;
+            for _ in 0..100 {
+                let r: StdResult<ProposalListResponse> = if self.flex {
+                    q.query_wasm_smart(&ms, &cw3_flex_multisig::msg::QueryMsg::ReverseProposals { start_before: before, limit: Some(30) })
+                } else {
+                    q.query_wasm_smart(&ms, &cw3_fixed_multisig::msg::QueryMsg::ReverseProposals { start_before: before, limit: Some(30) })
+                };
+                match r {
+                    Ok(r) => {
+                        if r.proposals.is_empty() {
+                            break;
+                        }
+                        before = r.proposals.last().map(|p| p.id);
+                        rev.extend(r.proposals);
+                    }
+                    Err(_) => {
+                        aborted = true;
+                        break;
+                    }
+                }
+            }
+            rev.reverse();
+            if !aborted && !listing_aborted && rev != raw {
+                o.view_bad.push(0);
             }
         }
         // a listing that aborts (class D3) hides proposals: fall back to single queries
@@ -672,6 +731,7 @@ impl World {
             }
             g.block_start = self.block_start.clone();
             g.changed = self.changed;
+            g.snaps = self.snaps.clone();
         }
         g
     }
@@ -792,6 +852,7 @@ impl World {
                 if let Some(p) = after.props.last() {
                     if after.props.len() > before.props.len() {
                         self.starts.push((p.id, h));
+                        self.snaps.push((p.id, self.block_start.clone()));
                     }
                 }
             }
@@ -986,9 +1047,11 @@ pub fn generate(seed: u64, case: u64, max_steps: usize) -> Ran {
     let nsteps = 1 + r.below(max_steps as u64) as usize;
     let mut title = 0u64;
     let mut last_after: Option<Obs> = None;
+    // directed follow-ups (same block as the step that triggered them), consumed before random steps
+    let mut pending: std::collections::VecDeque<Step> = Default::default();
     for _ in 0..nsteps {
         let (mut h, mut t) = (w.height, w.time);
-        if r.chance(1, 4) {
+        if pending.is_empty() && r.chance(1, 4) {
             let dh = 1 + r.below(3);
             h += dh;
             t += 1_000_000_000 * dh;
@@ -1003,7 +1066,9 @@ pub fn generate(seed: u64, case: u64, max_steps: usize) -> Ran {
             }
         };
         let kind = r.below(100);
-        let step = if flex && kind < 8 {
+        let step = if let Some(st) = pending.pop_front() {
+            st
+        } else if flex && kind < 8 {
             let mut add = vec![];
             for _ in 0..r.below(3) {
                 add.push((r.below(n as u64) as usize, 1 + r.below(12)));
@@ -1089,8 +1154,52 @@ pub fn generate(seed: u64, case: u64, max_steps: usize) -> Ran {
         };
         let one = [step.clone()];
         run_steps(&mut w, &one, &mut ran);
-        if let Some(Rec::Call { after, .. }) = ran.recs.last() {
+        let mut new_prop: Option<(u64, usize)> = None;
+        if let Some(Rec::Call { after, before, ok, .. }) = ran.recs.last() {
+            if *ok && after.props.len() > before.props.len() {
+                if let Some(p) = after.props.last() {
+                    new_prop = Some((p.id, p.proposer));
+                }
+            }
             last_after = Some(after.clone());
+        }
+        if flex && pending.is_empty() {
+            match &step {
+                // a membership change right after the proposal, in its own block, then a vote by the changed member
+                Step::Call { h, t, op: Op::Propose { .. }, .. } if new_prop.is_some() && r.chance(1, 4) => {
+                    let (pid, proposer) = new_prop.unwrap();
+                    let others: Vec<usize> = member_ids.iter().cloned().filter(|m| *m != proposer).collect();
+                    if !others.is_empty() {
+                        let m = *r.pick(&others);
+                        let (add, remove) = if r.chance(1, 3) { (vec![], vec![m]) } else { (vec![(m, 1 + r.below(12))], vec![]) };
+                        pending.push_back(Step::Group { h: *h, t: *t, add, remove });
+                        pending.push_back(Step::Call { h: *h, t: *t, s: m, op: Op::Vote { id: pid, v: V::Yes } });
+                    }
+                }
+                // a member removed from the group tries to execute a passed proposal in the block of its removal
+                Step::Group { h, t, remove, .. } if !remove.is_empty() && w.changed && r.chance(1, 2) => {
+                    if let Some(o) = &last_after {
+                        let passed: Vec<u64> = o.props.iter().filter(|p| p.status == 4).map(|p| p.id).collect();
+                        if !passed.is_empty() {
+                            pending.push_back(Step::Call { h: *h, t: *t, s: remove[0], op: Op::Execute { id: *r.pick(&passed) } });
+                        }
+                    }
+                }
+                _ => {}
+            }
+            // executor = any member: remove a member and let it try to execute a passed proposal in the same block
+            if pending.is_empty() && matches!(ran.trace.init.executor, Some(Exec::Member)) && r.chance(1, 4) {
+                if let Some(o) = &last_after {
+                    let passed: Vec<u64> = o.props.iter().filter(|p| p.status == 4).map(|p| p.id).collect();
+                    let members = w.group_members();
+                    if !passed.is_empty() && !members.is_empty() {
+                        let m = r.pick(&members).0;
+                        let (h, t) = (w.height, w.time);
+                        pending.push_back(Step::Group { h, t, add: vec![], remove: vec![m] });
+                        pending.push_back(Step::Call { h, t, s: m, op: Op::Execute { id: *r.pick(&passed) } });
+                    }
+                }
+            }
         }
         ran.trace.steps.push(step);
     }
@@ -1194,23 +1303,25 @@ fn c_nn<T: std::fmt::Display, U: std::fmt::Display>(v: &[(T, U)]) -> String {
 }
 fn c_obs(o: &Obs) -> String {
     format!(
-        "(mkObs {} {} {} {} {} {})",
+        "(mkObs {} {} {} {} {} {} {})",
         list(&o.props, c_pobs),
         c_nn(&o.voters),
         o.ms_native,
         o.ms_cw20,
         c_nn(&o.native),
-        c_nn(&o.cw20)
+        c_nn(&o.cw20),
+        list(&o.view_bad, |x| x.to_string())
     )
 }
 fn c_genv(g: &GEnv) -> String {
     format!(
-        "(mkGe {} {} {} {} {})",
+        "(mkGe {} {} {} {} {} {})",
         c_nn(&g.now),
         g.total,
         list(&g.at, |(a, h, w)| format!("({}, {}, {})", a, h, opt(w, |x| x.to_string()))),
         c_nn(&g.block_start),
-        b(g.changed)
+        b(g.changed),
+        list(&g.snaps, |(id, m)| format!("({}, {})", id, c_nn(m)))
     )
 }
 fn c_hcall(c: &HCall) -> String {
